@@ -95,9 +95,47 @@ def is_complex(a):
     return getattr(a, "iscomplex", False)
 
 
+# ---- dtype tokens ---------------------------------------------------------------------------------------------------------------
+# The dtype of an ndarray is an integer token `dtk`: a free symbol for an input array (ANY dtype: float, integer, unsigned, complex),
+# numpy's default dtype of the element kind for arrays the models build from Python numbers, and an uninterpreted function of the
+# operand dtypes for every operation that may change the dtype (sum, true division, fft, .real, arithmetic with a scalar).  Views,
+# copies, slices, pad, reshape, expand_dims and in-place updates keep the dtype (numpy).  astype(d) has dtype d.
+
+DT_DEFAULT = {"real": 1, "int": 2, "bool": 3, "complex": 4}
+
+
+class DType:
+    """value of `arr.dtype`: the token term + the element kind"""
+
+    _pyvc_value = True
+
+    def __init__(self, t, kind="real"):
+        self.t = lift(t)
+        self.kind = kind
+
+    def __repr__(self):
+        return f"dtype<{self.t}>"
+
+
+def dtk(a):
+    t = getattr(a, "dtk", None)
+    if t is not None:
+        return lift(t)
+    return z3.IntVal(DT_DEFAULT.get(getattr(a, "kind", "real"), 1))
+
+
+def dt_fun(name, *args):
+    """result dtype of a numpy operation: an (uninterpreted) function of the operand dtypes / operand kind"""
+    args = [lift(x) for x in args]
+    F = z3.Function("dtype_of_" + name, *([z3.IntSort()] * len(args)), z3.IntSort())
+    return F(*args)
+
+
 def mark_nd(a, like=None, iscomplex=None):
     a.as_type = np.ndarray
     a.pylist = False
+    if like is not None and getattr(a, "dtk", None) is None and getattr(like, "dtk", None) is not None:
+        a.dtk = like.dtk
     if iscomplex is not None:
         a.iscomplex = iscomplex
     elif like is not None:
@@ -120,6 +158,7 @@ def fresh_nd(ctx, name, ndim, kind="real", min_len=1, complex_flag=True):
         ctx.assume(d.t >= min_len)
         dims.append(d)
     a = ctx.fresh_arr(name, tuple(dims), kind)
+    a.dtk = ctx.fresh(name + "_dtype", "int").t  # arbitrary dtype (float / signed / unsigned / complex ...)
     return mark_nd(a, iscomplex=ctx.fresh(name + "_iscomplex", "bool").t if complex_flag else False)
 
 
@@ -200,7 +239,10 @@ def nd_copy(a, kind=None, conv=None):
     for at in ("func",):
         if conv is None and hasattr(a, at):
             setattr(r, at, getattr(a, at))
-    return mark_nd(r, like=a)
+    mark_nd(r, like=a)
+    if conv is not None:
+        r.dtk = z3.IntVal(DT_DEFAULT.get(kind or a.kind, 1))
+    return r
 
 
 def to_symarr(x):
@@ -240,7 +282,7 @@ def content_key(a):
     return repr(a)
 
 
-def opaque(name, srcs, params, shape, kind="real", iscomplex=False):
+def opaque(name, srcs, params, shape, kind="real", iscomplex=False, dt=None):
     """Result of a library operation whose values are not modelled: an uninterpreted function that is *determined by*
     (contents of the inputs, parameters) - two calls on syntactically identical inputs yield the identical array."""
     h = hashlib.sha1((name + "|" + content_key(list(srcs)) + "|" + content_key(list(params))).encode()).hexdigest()[:12]
@@ -252,7 +294,10 @@ def opaque(name, srcs, params, shape, kind="real", iscomplex=False):
     else:
         c = z3.Const(f"{name}#{h}", rng)
         fn = lambda _c=c: Sym(_c)
-    return nd(shape, fn, kind, iscomplex=iscomplex)
+    r = nd(shape, fn, kind, iscomplex=iscomplex)
+    if dt is not None:
+        r.dtk = dt
+    return r
 
 
 # ------------------------------------------------------------------------------------------------
@@ -500,12 +545,29 @@ def install(reg):
             return lambda *x, **k: nd_copy(a)
         if name == "astype":
             def astype(dt, copy=True, **k):
+                if isinstance(dt, DType):
+                    if dt.t.eq(dtk(a)):
+                        return a if copy is False else nd_copy(a)  # same dtype: the array itself with copy=False, else a plain copy
+                    # another dtype: a NEW array of dtype dt whose values are the cast values (truncation / wrap-around for integers)
+                    CAST = z3.Function("cast_to_dtype", z3.IntSort(), z3.RealSort(), z3.RealSort())
+                    r = nd_copy(a, kind="real", conv=lambda v, _t=dt.t: Sym(CAST(_t, _real(v))))
+                    r.dtk = dt.t
+                    return r
                 if dt in (float, np.float64, np.float32, "float", "float64") and a.kind == "int":
                     return nd_copy(a, kind="real", conv=lambda v: Sym(z3.ToReal(lift(v))) if z3.is_int(lift(v)) else v)
                 if dt in (int, np.int64, np.int32) and a.kind != "int":
                     raise OutOfSubset("astype(int) of a non-integer symbolic array")
-                return nd_copy(a)
+                r = nd_copy(a)
+                if dt in (float, np.float64, "float", "float64"):
+                    r.dtk = z3.IntVal(DT_DEFAULT["real"])
+                elif dt in (int, np.int64):
+                    r.dtk = z3.IntVal(DT_DEFAULT["int"])
+                else:
+                    r.dtk = dt_fun("astype_" + str(getattr(dt, "__name__", dt)), dtk(a))
+                return r
             return astype
+        if name == "dtype":
+            return DType(dtk(a), a.kind)
         if name == "flatten":
             return lambda *x, **k: nd_flatten(a)
         if name == "real":
@@ -516,6 +578,7 @@ def install(reg):
                 RE = z3.Function("Re", z3.RealSort(), z3.RealSort())
                 cplx = lift(is_complex(a))
                 r = nd(a.shape, lambda *idx: Sym(z3.If(cplx, RE(_real(g(*idx))), _real(g(*idx)))), "real", base=a.base, iscomplex=False)
+                r.dtk = dt_fun("real_part", dtk(a))
             return _carry_guards(r, a, g)
         if name == "reshape":
             def reshape(*shape):
@@ -526,7 +589,7 @@ def install(reg):
                 if any((not isinstance(d, Sym)) and d == -1 for d in shape):
                     r = a.reshape(*shape)
                     return mark_nd(r, like=a)
-                r = opaque("reshape", [a], [list(shape)], tuple(shape), a.kind, iscomplex=is_complex(a))
+                r = opaque("reshape", [a], [list(shape)], tuple(shape), a.kind, iscomplex=is_complex(a), dt=dtk(a))
                 r.base = a.base
                 return r
             return reshape
@@ -851,7 +914,7 @@ def install(reg):
                     src.append(i - lift(b))
                 return ite(z3.And(*inside) if inside else z3.BoolVal(True), g(*src), 0)
             return nd(shape, fn, arr.kind, like=arr)
-        out = opaque(f"pad[{mode}]", [arr], [pairs, kw], shape, arr.kind, iscomplex=is_complex(arr))
+        out = opaque(f"pad[{mode}]", [arr], [pairs, kw], shape, arr.kind, iscomplex=is_complex(arr), dt=dtk(arr))
 
         def fn2(*idx):
             inside, src = [], []
@@ -878,7 +941,7 @@ def install(reg):
         shape = tuple(d for i, d in enumerate(arr.shape) if i not in axes)
         if not axes:
             return nd_copy(arr)
-        return opaque("sum", [arr], [axes], shape, arr.kind, iscomplex=is_complex(arr))
+        return opaque("sum", [arr], [axes], shape, arr.kind, iscomplex=is_complex(arr), dt=dt_fun("sum", dtk(arr)))
 
     M[np.sum] = m_sum
 
@@ -901,8 +964,38 @@ def install(reg):
             if not isinstance(a, SymArr):
                 return interp.native(getattr(np.fft, name), a, axes=axes, **kw)
             ax = _axes(a, axes)
-            return opaque(name, [a], [ax, kw], tuple(a.shape), "real", iscomplex=True if complex_out else is_complex(a))
+            return opaque(name, [a], [ax, kw], tuple(a.shape), "real", iscomplex=True if complex_out else is_complex(a),
+                          dt=dt_fun(name, dtk(a)) if complex_out else dtk(a))
         return h
+
+    import operator as _op
+
+    def arith(interp, op, x, y):
+        """array (op) scalar / array: values by the engine's elementwise rule; the RESULT DTYPE is a function of the operand dtypes"""
+        arrs = [v for v in (x, y) if isinstance(v, SymArr)]
+        if any(v.pylist or getattr(v, "as_type", None) is not np.ndarray for v in arrs):
+            return NotImplemented
+        r = op(x, y)
+        if isinstance(r, SymArr):
+            mark_nd(r, iscomplex=is_complex(arrs[0]) if len(arrs) == 1 else z3.Or(lift(is_complex(arrs[0])), lift(is_complex(arrs[1]))))
+            other = [v for v in (x, y) if not isinstance(v, SymArr)]
+            ok = z3.IntVal(2 if (other and ((isinstance(other[0], Sym) and other[0].is_int) or isinstance(other[0], (int, np.integer)))) else 1) if other else dtk(arrs[1])
+            r.dtk = dt_fun(op.__name__, dtk(arrs[0]), ok)
+        return r
+
+    for _o in (_op.truediv, _op.mul, _op.add, _op.sub, _op.floordiv):
+        reg.binop_models[(SymArr, _o)] = arith
+
+    _issub = M.get(np.issubdtype)
+
+    def m_issubdtype(interp, a, b):
+        if isinstance(a, DType):
+            if b is np.number:
+                return a.kind in ("int", "real", "complex")
+            raise OutOfSubset("np.issubdtype of a symbolic dtype against a class other than np.number")
+        return _issub(interp, a, b) if _issub else interp.native(np.issubdtype, a, b)
+
+    M[np.issubdtype] = m_issubdtype
 
     M[np.fft.fftn] = fft_like("fftn", True)
     M[np.fft.ifftn] = fft_like("ifftn", True)
